@@ -172,7 +172,16 @@ def _appends_text(body, lids):
     return None
 
 
-def r_cdata(ctx, rep, floor=4):
+def _assigns_text(body, lids):
+    """`acc = <expr of the bound event>` with a String-typed left-hand side"""
+    for n in walk_k(body, "Assign"):
+        t = (peel(n["l"]).get("ty") or "")
+        if "String" in t and _uses_binding(n["r"], lids):
+            return n
+    return None
+
+
+def r_cdata(ctx, rep, floor=15):
     """Subjects: event matches with an arm `Event::Text(b)` whose body appends b to a string."""
     F = ctx.facts("default")
     for fn in F.fns:
@@ -182,7 +191,7 @@ def r_cdata(ctx, rep, floor=4):
             for arm in em["match"]["arms"]:
                 if _arm_event_variant(arm, em["wrapped"]) == "Text":
                     lids = {lid for _, lid in pat_bindings(arm["pat"])}
-                    if _appends_text(arm["body"], lids):
+                    if _appends_text(arm["body"], lids) or _assigns_text(arm["body"], lids):
                         text_arm = (arm, lids)
                         break
             if not text_arm:
@@ -190,6 +199,14 @@ def r_cdata(ctx, rep, floor=4):
             arm, lids = text_arm
             base = "%s|R-CDATA|textmatch#%d" % (fn.name, ordinal)
             ordinal += 1
+            # (0) the content of one element can arrive in several Text / CData events (a CDATA section, comment or
+            # processing instruction splits it): every piece is appended, never assigned over the previous ones
+            asg = _assigns_text(arm["body"], lids)
+            if asg is not None:
+                rep.violation("R-CDATA", base + "|append", loc(asg),
+                              "in %s the Event::Text payload is assigned to the accumulator instead of appended: text that reaches the reader in several pieces (text, CDATA, text) keeps only the last piece" % fn.name)
+            else:
+                rep.holds("R-CDATA", base + "|append", loc(arm), "Event::Text payload is appended to the accumulator")
             # (a) Text goes through unescape()
             unesc = [n for n in walk_k(arm["body"], "MethodCall") if (callee(n) or "").endswith("BytesText::unescape") and _uses_binding(n["recv"], lids)]
             if unesc:
